@@ -47,7 +47,8 @@ MANIFEST = dict(
               "+ regenerated operator table lemma + model/implementation correspondence by vm_compute",
 )
 
-THEOREMS = ["C10_roundtrip", "C10_precedence", "C10_parens", "C10_optable", "C10_lex_tables"]
+THEOREMS = ["C10_roundtrip", "C10_precedence", "C10_parens", "C10_fuel", "C10_sound_core", "C10_characterised",
+            "C10_optable", "C10_lex_tables"]
 ALLOWED_AXIOMS = []
 
 KNOWN = [f for f in common.load_known() if f.get("property") == "C10"]
